@@ -20,7 +20,7 @@ RULE = (
     "Hypothesis draws a problem (all families/boxes/starts, callable gradient, no scaler), maxcor 1..10, a horizon K in 2..25 and split points k (3 drawn in quick, every k in thorough), "
     "a chain of up to 4 restarts and optionally a reduced maxcor. For each split: run(maxiter=k) -> checkpoint; restart(maxiter=k) must return the checkpoint's newest pairs; "
     "restart(maxiter=k+1) must land on the iterate of run(maxiter=k+1). non-trivial = checkpoint holds >=2 pairs and >=1 variable on a bound at x_k, or the chain has >=2 restarts, "
-    "or maxcor is reduced below the number of stored pairs; distinct = distinct (run spec, split)"
+    "or maxcor is reduced below the number of stored pairs, or the newest step before the split was not stored as a pair (rejected curvature; a dedicated non-convex boxed generator aims at it); distinct = distinct (run spec, split)"
 )
 ASSUMPTIONS = [
     "pairs are stored as differences in the checkpoint and as points in memory, so 'same pairs' is judged up to the rounding of rebuilding points and differencing again: 4(m+2)*eps*max|chain|",
@@ -91,7 +91,11 @@ def check_next(ref_k, ref_k1, rs, tag):
     require(rs["nit"] == ref_k1["nit"], f"nit-resumed[{tag}]", f"restart nit={rs['nit']} uninterrupted nit={ref_k1['nit']}")
     dn_ref = (ref_k1["nfev"] - ref_k["nfev"], ref_k1["njev"] - ref_k["njev"])
     dn_rs = (rs["nfev"] - ref_k["nfev"], rs["njev"] - ref_k["njev"])
-    require(dn_ref == dn_rs, f"counters-resumed[{tag}]", f"(nfev,njev) increments: uninterrupted {dn_ref}, restart {dn_rs}")
+    # The uninterrupted run keeps its one-cell evaluation memo across the split (a trial point that
+    # coincides with the last evaluated point costs nothing); a restarted process cannot have it.  So the
+    # restart may need exactly one more objective / gradient evaluation, never fewer and never more.
+    ok = all(0 <= a - b <= 1 for a, b in zip(dn_rs, dn_ref))
+    require(ok, f"counters-resumed[{tag}]", f"(nfev,njev) increments: uninterrupted {dn_ref}, restart {dn_rs}")
     return dev / tol if tol > 0 else 0.0
 
 
@@ -101,9 +105,13 @@ def check(spec, stats=None):
     cfg = base_cfg(rspec)
     cfg["maxfun"] = 100000  # the premise is "stopped by maxiter"
     K = spec["K"]
-    full = fresh(prob, cfg, K)
+    cK = dict(cfg)
+    cK["maxiter"] = K
+    full = run_min(prob, cK, callback="passive")
     if full.exc is not None:
         raise full.exc
+    x_of = {c["snap"]["nit"]: c["xk"] for c in full.cb}
+    x_of[0] = np.clip(prob.x0, prob.lb, prob.ub)
     nit_full = full.res["nit"]
     if nit_full < 2:
         if stats is not None:
@@ -122,6 +130,10 @@ def check(spec, stats=None):
             raise B.exc
         ck = A.res
         labels = [f"pairs={min(ck['sk'].shape[0], 3)}{'+' if ck['sk'].shape[0] > 3 else ''}"]
+        # was some step before the split not stored (curvature test failed)?  Then the newest stored
+        # pair does not end at x_k and the checkpoint's history is a translated copy of the real one.
+        unstored = bool(ck["sk"].shape[0] >= 1 and k in x_of and (k - 1) in x_of and not np.array_equal(ck["sk"][-1], x_of[k] - x_of[k - 1]))
+        labels.append(f"newest-step-unstored={unstored}")
         # (a) no-iteration restart, maxcor kept
         R0 = restart(prob, cfg, A.result, k)
         if R0.exc is not None:
@@ -169,7 +181,7 @@ def check(spec, stats=None):
             chain_len += 1
         if stats is not None:
             on_bound = prob.n_on_bound(ck["x"]) >= 1
-            nt = (ck["sk"].shape[0] >= 2 and on_bound) or chain_len >= 2 or reduced
+            nt = (ck["sk"].shape[0] >= 2 and on_bound) or chain_len >= 2 or reduced or unstored
             labels += [f"chain={chain_len}", f"onbound={on_bound}"]
             stats.case({"run": rspec, "k": k, "reduce": spec.get("reduce"), "chain": spec.get("chain")}, nt, labels,
                        sample={"family": rspec["problem"]["obj"]["family"], "n": prob.n, "maxcor": m, "K": K, "k": k, "pairs_in_checkpoint": int(ck["sk"].shape[0]),
@@ -185,12 +197,22 @@ def strategy(draw, all_splits=False):
     return {"run": r, "K": K, "splits": splits, "reduce": draw(st.sampled_from([None, 1, 2, 3, 5])), "chain": draw(st.sampled_from([0, 0, 1, 2, 3, 4]))}
 
 
+@st.composite
+def nonconvex_boxed_strategy(draw):
+    """Aimed at checkpoints whose newest step was not stored (rejected curvature pair) while variables sit on bounds."""
+    r = draw(run_spec(families=("sines", "badscale", "rosenbrock", "bench", "sines"), n_max=6, jac_modes=("callable",), maxiter=(3, 20), maxfun=(1000, 1000),
+                      ftols=(0.0,), gtols=(1e-10,), allow_degenerate=False, box_mode="boxed", narrow=draw(st.booleans())))
+    return {"run": r, "K": r["cfg"]["maxiter"], "splits": "all", "reduce": draw(st.sampled_from([None, None, 1, 2])), "chain": draw(st.sampled_from([0, 0, 1, 2]))}
+
+
 def shard(ctx):
     if ctx.tier == "quick":
-        ctx.hyp("splits", strategy(False), check, 1200)
+        ctx.hyp("splits", strategy(False), check, 3000)
+        ctx.hyp("nonconvex-boxed-all-splits", nonconvex_boxed_strategy(), check, 1200)
     else:
-        ctx.hyp("splits", strategy(False), check, 12000)
-        ctx.hyp("all-splits", strategy(True), check, 6000)
+        ctx.hyp("splits", strategy(False), check, 20000)
+        ctx.hyp("all-splits", strategy(True), check, 8000)
+        ctx.hyp("nonconvex-boxed-all-splits", nonconvex_boxed_strategy(), check, 12000)
 
 
 def replay(spec):
